@@ -39,7 +39,7 @@ func (cr *checkRun) modelValidation(scenarios []int) {
 	}
 	for _, sc := range scenarios {
 		var st smt.Stats
-		s, err := smt.Start("z3-new", 60*time.Second, &st)
+		s, err := smt.Start("z3-new", 300*time.Second, &st)
 		if err != nil {
 			cr.problems = append(cr.problems, err.Error())
 			return
